@@ -264,7 +264,7 @@ def trivial_idx(idx):
 def build_cases(chk):
     rng = chk.rng
     T = chk.tier == "thorough"
-    mult = 4 if T else 1
+    mult = 16 if T else 1
     get_cases, set_cases, bnd_cases, fld_cases, geo_cases = [], [], [], [], []
 
     # corpus (minimised earlier failures) first
@@ -278,7 +278,7 @@ def build_cases(chk):
 
     # exhaustive 1-d get over all slices for n <= 4 and small 2-d products
     if True:
-        for n in ([1, 2, 3, 4, 5] if T else [1, 2, 3, 4]):
+        for n in ([1, 2, 3, 4, 5, 6] if T else [1, 2, 3, 4]):
             flat = list(range(10, 10 + n))
             rngv = [None] + list(range(-n - 1, n + 2))
             for a in rngv:
